@@ -435,10 +435,16 @@ func reportViolation(p props.Property, sc *props.Scenario, v *props.Verdict) (Vi
 // encoding/json is per-P) and on its bounded shadow memory. A report is never false, so for
 // scenarios judged by the race detector the replay is repeated a few times under different
 // GOMAXPROCS and counts as reproduced as soon as one attempt fails.
-func freshReplayFails(file string) bool {
-	attempts := 1
-	if props.RaceEnabled {
-		attempts = 12
+func freshReplayFails(file string) bool { return freshReplayFailsN(file, 0) }
+
+// freshReplayFailsN: attempts 0 = default (1, or 12 in a race build, where the schedule is exact
+// but whether the race detector reports a given race depends on sync.Pool and shadow-memory state).
+func freshReplayFailsN(file string, attempts int) bool {
+	if attempts == 0 {
+		attempts = 1
+		if props.RaceEnabled {
+			attempts = 12
+		}
 	}
 	gmps := []string{"4", "1", "16", "2", "8", "12"}
 	for a := 0; a < attempts; a++ {
@@ -821,7 +827,11 @@ func deadWorker(p props.Property, idx, code int, journalFile, stderr, runDir str
 	file := filepath.Join(dir, fmt.Sprintf("%s-%016x.json", p.ID(), sc.RunSeed))
 	jb, _ := json.MarshalIndent(&sc, "", " ")
 	_ = os.WriteFile(file, jb, 0o644)
-	if !freshReplayFails(file) {
+	n := 0
+	if code == 66 {
+		n = 36 // the race detector did report in the worker: try harder to see it again
+	}
+	if !freshReplayFailsN(file, n) {
 		return ViolationReport{}, false
 	}
 	if !minimise {
